@@ -403,3 +403,321 @@ Proof.
       intros k' Hin. apply Hk3. now apply K.
     + cbn [backtrack_ge]. intros k Hin. apply Hlt. now apply K.
 Qed.
+
+(** * [find_last_key_leq] *)
+
+Lemma scan_le_spec : forall f tb, wf_f f ->
+  match scan_le tb f with
+  | (_, None) => forall l c, In_f l c f -> tb < l
+  | (pp, Some (l, c)) =>
+      In_f l c f /\ l <= tb /\ (forall l' c', In_f l' c' f -> l' <= l \/ tb < l') /\
+      match pp with
+      | None => forall l' c', In_f l' c' f -> l <= l'
+      | Some (l0, c0) => In_f l0 c0 f /\ l0 < l /\ forall l' c', In_f l' c' f -> l' <= l0 \/ l <= l'
+      end
+  end.
+Proof.
+  induction f as [|l1 c1 r IH] using forest_ind_simple; intros tb Hwf.
+  - cbn. intros l c [].
+  - cbn [wf_f] in Hwf. destruct Hwf as (W1 & W2 & W3 & W4).
+    cbn [scan_le]. destruct (N.leb_spec l1 tb) as [Hle|Hgt].
+    + specialize (IH tb W3). destruct (scan_le tb r) as [pp [[l c]|]].
+      * destruct IH as (Hin & Hl & Hall & Hpp).
+        pose proof (W4 l c Hin) as Hl1.
+        split; [now right|]. split; [assumption|]. split.
+        -- intros l' c' [[-> _]|Hin']; [left; lia|now apply (Hall l' c')].
+        -- destruct pp as [[l0 c0]|].
+           ++ destruct Hpp as (Hin0 & Hlt0 & Hall0). split; [now right|]. split; [assumption|].
+              intros l' c' [[-> _]|Hin']; [|now apply (Hall0 l' c')].
+              apply W4 in Hin0. left. lia.
+           ++ split; [left; auto|]. split; [assumption|].
+              intros l' c' [[-> _]|Hin']; [left; lia|]. right. now apply (Hpp l' c').
+      * split; [left; auto|]. split; [assumption|]. split.
+        -- intros l' c' [[-> _]|Hin']; [left; lia|]. right. now apply (IH l' c').
+        -- intros l' c' [[-> _]|Hin']; [lia|]. apply W4 in Hin'. lia.
+    + intros l c [[-> _]|Hin]; [assumption|]. apply W4 in Hin. lia.
+Qed.
+
+Definition no_proper_prefix (S : list bytes) (target : bytes) : Prop :=
+  forall k, In k S -> ~ proper_prefix k target.
+
+Definition bt_some (stack : list (option (N * trie) * bytes)) : Prop :=
+  exists k, backtrack_le stack = Some (Some k).
+
+Lemma proper_prefix_cons : forall x k t, proper_prefix k t -> proper_prefix (x :: k) (x :: t).
+Proof. intros x k t (s & Hs & ->). exists s. split; [assumption|reflexivity]. Qed.
+
+Lemma nil_proper_prefix : forall x t, proper_prefix [] (x :: t).
+Proof. intros x t. exists (x :: t). split; [discriminate|reflexivity]. Qed.
+
+(** No false "none": if no key is a proper prefix of the target, a key <= target (or a
+    usable backtrack point) makes the search succeed. *)
+Lemma leq_loop_sound : forall target t path stack, wf_t t -> keys_t t <> [] ->
+  no_proper_prefix (keys_t t) target ->
+  ((exists k, In k (keys_t t) /\ ble k target) -> leq_loop target t path stack <> None) /\
+  (bt_some stack -> leq_loop target t path stack <> None).
+Proof.
+  induction target as [|tb rest IH]; intros t path stack Hwf Hne Hnp.
+  - cbn [leq_loop]. destruct (descend_rightmost_spec t Hwf Hne path) as (k & _ & Hd).
+    rewrite Hd. split; intros _; discriminate.
+  - destruct t as [tm f]. cbn [wf_t] in Hwf. cbn [leq_loop t_children t_terminal].
+    pose proof (scan_le_spec f tb Hwf) as Hs.
+    destruct (scan_le tb f) as [pp [[l c]|]].
+    + destruct Hs as (Hin & Hl & Hall & Hpp).
+      destruct (wf_child f l c Hwf Hin) as (Wc & Nc).
+      destruct (N.eqb_spec l tb) as [->|Hne2].
+      * assert (Hnpc : no_proper_prefix (keys_t c) rest).
+        { intros k Hk Hp. apply (Hnp (tb :: k)); [now apply (in_keys_child tm f tb c)|].
+          now apply proper_prefix_cons. }
+        destruct (IH c (path ++ [tb]) ((pp, path) :: stack) Wc Nc Hnpc) as (I1 & I2).
+        assert (Hbt : (exists l0 c0, pp = Some (l0, c0)) \/ bt_some stack -> bt_some ((pp, path) :: stack)).
+        { intros [(l0 & c0 & ->)|Hb].
+          - destruct Hpp as (Hin0 & _). destruct (wf_child f l0 c0 Hwf Hin0) as (W0 & N0).
+            destruct (descend_rightmost_spec c0 W0 N0 (path ++ [l0])) as (k0 & _ & Hd).
+            exists (path ++ [l0] ++ k0). cbn [backtrack_le]. rewrite Hd, app_assoc. reflexivity.
+          - destruct pp as [[l0 c0]|]; [|exact Hb].
+            destruct Hpp as (Hin0 & _). destruct (wf_child f l0 c0 Hwf Hin0) as (W0 & N0).
+            destruct (descend_rightmost_spec c0 W0 N0 (path ++ [l0])) as (k0 & _ & Hd).
+            exists (path ++ [l0] ++ k0). cbn [backtrack_le]. rewrite Hd, app_assoc. reflexivity. }
+        split.
+        -- intros (k & Hk & Hle). apply in_keys_t in Hk as [[Htm ->]|Hk].
+           { exfalso. apply (Hnp []); [apply in_keys_t; left; auto|apply nil_proper_prefix]. }
+           apply in_keys_f in Hk as (l2 & c2 & k2 & Hin2 & -> & Hk2).
+           apply ble_cons in Hle. destruct Hle as [Hlt|[-> Hle]].
+           ++ apply I2. apply Hbt. left. destruct pp as [[l0 c0]|]; [now exists l0, c0|].
+              exfalso. pose proof (Hpp l2 c2 Hin2). lia.
+           ++ apply I1. exists k2. split; [|assumption].
+              now rewrite <- (In_f_label_unique f tb c2 c Hwf Hin2 Hin).
+        -- intros Hb. apply I2. apply Hbt. now right.
+      * destruct (descend_rightmost_spec c Wc Nc (path ++ [l])) as (k0 & _ & Hd). rewrite Hd.
+        split; intros _; discriminate.
+    + split.
+      * intros (k & Hk & Hle). exfalso. apply in_keys_t in Hk as [[Htm ->]|Hk].
+        -- apply (Hnp []); [apply in_keys_t; left; auto|apply nil_proper_prefix].
+        -- apply in_keys_f in Hk as (l2 & c2 & k2 & Hin2 & -> & Hk2).
+           apply ble_cons in Hle. pose proof (Hs l2 c2 Hin2). destruct Hle as [Hlt|[-> _]]; lia.
+      * intros (k & Hb). rewrite Hb. discriminate.
+Qed.
+
+Definition uniform (n : nat) (S : list bytes) : Prop := forall k, In k S -> length k = n.
+
+Definition bt_result (stack : list (option (N * trie) * bytes)) : option bytes :=
+  match backtrack_le stack with Some r => r | None => None end.
+
+(** Exactness for keys of the target's length: the greatest key <= target, or the
+    backtracking result when there is none under this node. *)
+Lemma leq_loop_exact : forall target t path stack, wf_t t -> keys_t t <> [] ->
+  uniform (length target) (keys_t t) ->
+  (exists k, In k (keys_t t) /\ ble k target /\
+             (forall k', In k' (keys_t t) -> ble k' target -> ble k' k) /\
+             leq_loop target t path stack = Some (path ++ k))
+  \/ ((forall k, In k (keys_t t) -> blt target k) /\
+      leq_loop target t path stack = bt_result stack).
+Proof.
+  induction target as [|tb rest IH]; intros t path stack Hwf Hne Hu.
+  - left. cbn [leq_loop]. destruct (descend_rightmost_spec t Hwf Hne path) as (k & (Hk1 & Hk2) & Hd).
+    rewrite Hd. exists k. split; [assumption|].
+    assert (Hnil : forall k', In k' (keys_t t) -> k' = []).
+    { intros k' Hk'. apply Hu in Hk'. destruct k'; [reflexivity|discriminate]. }
+    rewrite (Hnil k Hk1). split; [apply ble_refl|]. split; [|reflexivity].
+    intros k' Hk' _. rewrite (Hnil k' Hk'). apply ble_refl.
+  - destruct t as [tm f]. cbn [wf_t] in Hwf.
+    assert (Htm : tm = false).
+    { destruct tm; [|reflexivity]. exfalso.
+      assert (Hin : In [] (keys_t (Node true f))) by (apply in_keys_t; left; auto).
+      apply Hu in Hin. discriminate. }
+    subst tm.
+    assert (Huc : forall l c, In_f l c f -> uniform (length rest) (keys_t c)).
+    { intros l c Hin k Hk. assert (Hk' : In (l :: k) (keys_t (Node false f))) by now apply (in_keys_child false f l c).
+      apply Hu in Hk'. cbn [length] in Hk'. lia. }
+    assert (Hkeys : forall k, In k (keys_t (Node false f)) ->
+                    exists l c k', In_f l c f /\ k = l :: k' /\ In k' (keys_t c)).
+    { intros k Hk. apply in_keys_t in Hk as [[E _]|Hk]; [discriminate|]. now apply in_keys_f. }
+    cbn [leq_loop t_children t_terminal].
+    pose proof (scan_le_spec f tb Hwf) as Hs.
+    destruct (scan_le tb f) as [pp [[l c]|]].
+    + destruct Hs as (Hin & Hl & Hall & Hpp).
+      destruct (wf_child f l c Hwf Hin) as (Wc & Nc).
+      destruct (N.eqb_spec l tb) as [->|Hne2].
+      * destruct (IH c (path ++ [tb]) ((pp, path) :: stack) Wc Nc (Huc tb c Hin))
+          as [(k' & Hk1 & Hk2 & Hk3 & Hg)|(Hgt & Hg)]; rewrite Hg.
+        -- left. exists (tb :: k'). rewrite app_snoc. split; [now apply (in_keys_child false f tb c)|].
+           split; [apply ble_cons; right; auto|]. split; [|reflexivity].
+           intros k2 Hk2in Hle. apply Hkeys in Hk2in as (l2 & c2 & k2' & Hin2 & -> & Hk2').
+           apply ble_cons in Hle. apply ble_cons. destruct Hle as [Hlt|[-> Hle]]; [now left|].
+           right. split; [reflexivity|].
+           rewrite (In_f_label_unique f tb c2 c Hwf Hin2 Hin) in Hk2'. now apply Hk3.
+        -- unfold bt_result. cbn [backtrack_le]. destruct pp as [[l0 c0]|].
+           ++ destruct Hpp as (Hin0 & Hlt0 & Hall0).
+              destruct (wf_child f l0 c0 Hwf Hin0) as (W0 & N0).
+              destruct (descend_rightmost_spec c0 W0 N0 (path ++ [l0])) as (km & (Hm1 & Hm2) & Hd).
+              left. exists (l0 :: km). rewrite Hd, app_snoc.
+              split; [now apply (in_keys_child false f l0 c0)|].
+              split; [apply ble_cons; left; assumption|]. split; [|reflexivity].
+              intros k2 Hk2in Hle. apply Hkeys in Hk2in as (l2 & c2 & k2' & Hin2 & -> & Hk2').
+              apply ble_cons in Hle. apply ble_cons.
+              destruct (Hall0 l2 c2 Hin2) as [H|H].
+              ** destruct (N.eq_dec l2 l0) as [->|Hne3]; [|left; lia].
+                 right. split; [reflexivity|].
+                 rewrite (In_f_label_unique f l0 c2 c0 Hwf Hin2 Hin0) in Hk2'. now apply Hm2.
+              ** exfalso. destruct Hle as [Hlt|[-> Hle]]; [lia|].
+                 rewrite (In_f_label_unique f tb c2 c Hwf Hin2 Hin) in Hk2'.
+                 apply Hgt in Hk2'. now apply not_blt_ble in Hle.
+           ++ right. split; [|reflexivity].
+              intros k2 Hk2in. apply Hkeys in Hk2in as (l2 & c2 & k2' & Hin2 & -> & Hk2').
+              apply blt_cons. pose proof (Hpp l2 c2 Hin2) as Hge.
+              destruct (N.eq_dec l2 tb) as [->|Hne3]; [|left; lia].
+              right. split; [reflexivity|].
+              rewrite (In_f_label_unique f tb c2 c Hwf Hin2 Hin) in Hk2'. now apply Hgt.
+      * assert (Hlt : l < tb) by lia.
+        destruct (descend_rightmost_spec c Wc Nc (path ++ [l])) as (km & (Hm1 & Hm2) & Hd).
+        left. exists (l :: km). rewrite Hd, app_snoc.
+        split; [now apply (in_keys_child false f l c)|].
+        split; [apply ble_cons; left; assumption|]. split; [|reflexivity].
+        intros k2 Hk2in Hle. apply Hkeys in Hk2in as (l2 & c2 & k2' & Hin2 & -> & Hk2').
+        apply ble_cons in Hle. apply ble_cons.
+        destruct (Hall l2 c2 Hin2) as [H|H]; [|destruct Hle as [Hle|[Hle _]]; lia].
+        destruct (N.eq_dec l2 l) as [->|Hne3]; [|left; lia].
+        right. split; [reflexivity|].
+        rewrite (In_f_label_unique f l c2 c Hwf Hin2 Hin) in Hk2'. now apply Hm2.
+    + right. split.
+      * intros k2 Hk2in. apply Hkeys in Hk2in as (l2 & c2 & k2' & Hin2 & -> & Hk2').
+        apply blt_cons. left. now apply (Hs l2 c2).
+      * unfold bt_result. destruct (backtrack_le stack); reflexivity.
+Qed.
+
+(** [find_last_key_leq] on keys of the target's length: the greatest key <= target *)
+Theorem last_leq_spec_uniform : forall ks target,
+  (forall k, In k ks -> length k = length target) ->
+  match find_last_key_leq (t_build ks) target with
+  | Some r => In r ks /\ ble r target /\ forall k, In k ks -> ble k target -> ble k r
+  | None => forall k, In k ks -> blt target k
+  end.
+Proof.
+  intros ks target Hu. destruct (t_build_spec ks) as (W & K). unfold find_last_key_leq.
+  assert (D : keys_t (t_build ks) = [] \/ keys_t (t_build ks) <> [])
+    by (destruct (keys_t (t_build ks)); [left; reflexivity|right; discriminate]).
+  destruct D as [Hk|Hne].
+  - rewrite (wf_nokeys _ W Hk).
+    assert (E : leq_loop target t_empty [] [] = None) by (destruct target; reflexivity).
+    rewrite E. intros k Hin. apply K in Hin. rewrite Hk in Hin. destruct Hin.
+  - assert (Hu' : uniform (length target) (keys_t (t_build ks))).
+    { intros k Hk. apply Hu. now apply K. }
+    destruct (leq_loop_exact target (t_build ks) [] [] W Hne Hu')
+      as [(k & Hk1 & Hk2 & Hk3 & Hg)|(Hgt & Hg)]; rewrite Hg.
+    + cbn [app]. split; [now apply K|]. split; [assumption|].
+      intros k' Hin. apply Hk3. now apply K.
+    + cbn. intros k Hin. apply Hgt. now apply K.
+Qed.
+
+(** if no key is a proper prefix of the target, [None] means: no key <= target *)
+Theorem last_leq_none_sound : forall ks target,
+  (forall k, In k ks -> ~ proper_prefix k target) ->
+  find_last_key_leq (t_build ks) target = None -> forall k, In k ks -> blt target k.
+Proof.
+  intros ks target Hnp Hnone k Hin. destruct (t_build_spec ks) as (W & K).
+  assert (Hne : keys_t (t_build ks) <> []).
+  { intros E. apply K in Hin. rewrite E in Hin. destruct Hin. }
+  assert (Hnp' : no_proper_prefix (keys_t (t_build ks)) target).
+  { intros k' Hk'. apply Hnp. now apply K. }
+  destruct (leq_loop_sound target (t_build ks) [] [] W Hne Hnp') as (S1 & _).
+  apply not_ble_blt. intros Hle. apply S1; [|exact Hnone].
+  exists k. split; [now apply K|assumption].
+Qed.
+
+(** * [find_first_key], [find_last_key] *)
+
+Lemma find_first_key_spec : forall ks k0, In k0 ks ->
+  exists m, find_first_key (t_build ks) = Some m /\ In m ks /\ forall k, In k ks -> ble m k.
+Proof.
+  intros ks k0 Hin. destruct (t_build_spec ks) as (W & K).
+  assert (Hne : keys_t (t_build ks) <> []).
+  { intros E. apply K in Hin. rewrite E in Hin. destruct Hin. }
+  destruct (descend_leftmost_spec _ W Hne []) as (m & (Hm1 & Hm2) & Hd).
+  exists m. split; [exact Hd|]. split; [now apply K|]. intros k Hk. apply Hm2. now apply K.
+Qed.
+
+Lemma find_last_key_spec : forall ks k0, In k0 ks ->
+  exists m, find_last_key (t_build ks) = Some m /\ In m ks /\ forall k, In k ks -> ble k m.
+Proof.
+  intros ks k0 Hin. destruct (t_build_spec ks) as (W & K).
+  assert (Hne : keys_t (t_build ks) <> []).
+  { intros E. apply K in Hin. rewrite E in Hin. destruct Hin. }
+  destruct (descend_rightmost_spec _ W Hne []) as (m & (Hm1 & Hm2) & Hd).
+  exists m. split; [exact Hd|]. split; [now apply K|]. intros k Hk. apply Hm2. now apply K.
+Qed.
+
+(** * [may_overlap_ge] / [may_overlap_le] *)
+
+Definition cmp_lower (incl : bool) (lower k : bytes) : Prop := if incl then ble lower k else blt lower k.
+Definition cmp_upper (incl : bool) (k upper : bytes) : Prop := if incl then ble k upper else blt k upper.
+
+(** exact for every key list *)
+Theorem may_overlap_ge_exact : forall ks lower incl,
+  may_overlap_ge (t_build ks) lower incl = true <-> exists k, In k ks /\ cmp_lower incl lower k.
+Proof.
+  intros ks lower incl. unfold may_overlap_ge. pose proof (first_geq_spec ks lower) as Hs.
+  destruct (find_first_key_geq (t_build ks) lower) as [r|].
+  - destruct Hs as (Hr1 & Hr2 & Hr3). destruct incl.
+    + split; [intros _; now exists r|reflexivity].
+    + unfold cmp_lower. destruct (bytes_ltb lower r) eqn:Hlt.
+      * split; [intros _; exists r; split; [assumption|now apply bytes_ltb_spec]|reflexivity].
+      * assert (Hnlt : ~ blt lower r).
+        { intros H. apply bytes_ltb_spec in H. unfold bytes_ltb in Hlt. congruence. }
+        destruct (find_last_key_spec ks r Hr1) as (m & Hm & Hm1 & Hm2). rewrite Hm.
+        split.
+        -- intros H. exists m. split; [assumption|]. now apply bytes_ltb_spec.
+        -- intros (k & Hk & Hgt). apply bytes_ltb_spec. apply (blt_le_trans lower k m); [exact Hgt|now apply Hm2].
+  - split; [discriminate|]. intros (k & Hk & Hc). exfalso.
+    specialize (Hs k Hk). unfold cmp_lower in Hc. destruct incl.
+    + now apply not_blt_ble in Hc.
+    + apply (blt_irrefl k). eapply blt_trans; eassumption.
+Qed.
+
+(** no false negative as soon as no key is a proper prefix of the bound *)
+Theorem may_overlap_le_sound : forall ks upper incl,
+  (forall k, In k ks -> ~ proper_prefix k upper) ->
+  (exists k, In k ks /\ cmp_upper incl k upper) ->
+  may_overlap_le (t_build ks) upper incl = true.
+Proof.
+  intros ks upper incl Hnp (k & Hk & Hc). unfold may_overlap_le.
+  assert (Hle : ble k upper) by (destruct incl; [exact Hc|now apply blt_ble]).
+  destruct (find_last_key_leq (t_build ks) upper) as [r|] eqn:Hr.
+  - destruct incl; [reflexivity|]. unfold cmp_upper in Hc.
+    destruct (bytes_ltb r upper); [reflexivity|].
+    destruct (find_first_key_spec ks k Hk) as (m & Hm & Hm1 & Hm2). rewrite Hm.
+    apply bytes_ltb_spec. apply (ble_lt_trans m k upper); [now apply Hm2|exact Hc].
+  - exfalso. pose proof (last_leq_none_sound ks upper Hnp Hr k Hk) as Hgt.
+    now apply not_blt_ble in Hle.
+Qed.
+
+(** exact for keys of the bound's length *)
+Theorem may_overlap_le_exact_uniform : forall ks upper incl,
+  (forall k, In k ks -> length k = length upper) ->
+  (may_overlap_le (t_build ks) upper incl = true <-> exists k, In k ks /\ cmp_upper incl k upper).
+Proof.
+  intros ks upper incl Hu. split.
+  - unfold may_overlap_le. pose proof (last_leq_spec_uniform ks upper Hu) as Hs.
+    destruct (find_last_key_leq (t_build ks) upper) as [r|]; [|discriminate].
+    destruct Hs as (Hr1 & Hr2 & Hr3). destruct incl.
+    + intros _. now exists r.
+    + unfold cmp_upper. destruct (bytes_ltb r upper) eqn:Hlt.
+      * intros _. exists r. split; [assumption|now apply bytes_ltb_spec].
+      * destruct (find_first_key_spec ks r Hr1) as (m & Hm & Hm1 & Hm2). rewrite Hm.
+        intros H. exists m. split; [assumption|now apply bytes_ltb_spec].
+  - apply may_overlap_le_sound. intros k Hk (s & Hs & E).
+    apply Hu in Hk. rewrite E, app_length in Hk. destruct s; [congruence|cbn in Hk; lia].
+Qed.
+
+(** Mixed lengths break [find_last_key_leq]: with keys "a" and "abz" and target "aba" the
+    search answers "none" although "a" <= "aba" (a terminal ancestor is forgotten when the
+    descent dead-ends).  Unreachable through the builder, which only inserts 8-byte keys. *)
+Theorem last_leq_prefix_refuted :
+  exists ks target k,
+    In k ks /\ ble k target /\
+    find_last_key_leq (t_build ks) target = None /\
+    may_overlap_le (t_build ks) target true = false.
+Proof.
+  exists [[97]; [97; 98; 122]], [97; 98; 97], [97].
+  split; [now left|]. split; [unfold ble; vm_compute; discriminate|]. split; vm_compute; reflexivity.
+Qed.
